@@ -170,6 +170,17 @@ func ValidateSchemaDocument(sd *SchemaDocument) (*Schema, error) {
 		}
 	}
 
+	// A root operation type is an object type: its fields are what an operation selects, and the
+	// introspection fields are added to the query root below.
+	for _, root := range []struct {
+		operation Operation
+		def       *Definition
+	}{{Query, schema.Query}, {Mutation, schema.Mutation}, {Subscription, schema.Subscription}} {
+		if root.def != nil && root.def.Kind != Object {
+			return nil, gqlerror.ErrorPosf(root.def.Position, "Schema root %s must be an object type, %s is a %s.", root.operation, root.def.Name, root.def.Kind)
+		}
+	}
+
 	if schema.Query != nil {
 		schema.Query.Fields = append(
 			schema.Query.Fields,
